@@ -362,6 +362,24 @@ def run_rvmisc(case, cx, bp):
             cx.bad(f'rvint:prealloc:oversized:{dt}', f'oversized supplied outputs: first N rows differ from allocated result, ret={r!r}')
         if not (np.isnan(po[n:]).all() and np.isnan(vo[n:]).all()):
             cx.bad(f'rvint:prealloc:guard:{dt}', 'rows beyond N of an oversized supplied output were written')
+        # supplied outputs that are not C-contiguous: the two halves of one (N,6) buffer, a Fortran-ordered array,
+        # every other row of a taller array, and the fields of a record array - the caller's memory must be written
+        buf = poisoned((n, 6), t)
+        rec = np.zeros(n, dtype=[('pos', t, 3), ('tag', 'i4'), ('vel', t, 3)])
+        rec['pos'][:] = np.nan
+        rec['vel'][:] = np.nan
+        tall_p, tall_v = poisoned((2 * n, 3), t), poisoned((2 * n, 3), t)
+        layouts = dict(halves=(buf[:, :3], buf[:, 3:]), fortran=(np.asfortranarray(poisoned((n, 3), t)), np.asfortranarray(poisoned((n, 3), t))),
+                       everyother=(tall_p[::2], tall_v[::2]), recfields=(rec['pos'], rec['vel']))
+        for lname, (po, vo) in layouts.items():
+            r = bp.unpack_rvint(w, 2000.0, float_dtype=t, posout=po, velout=vo)
+            cx.calls += 1
+            if tuple(r) != (n, n) or not same(po, base_pos) or not same(vo, base_vel):
+                cx.bad(f'rvint:prealloc:noncontiguous:{lname}:{dt}', f'supplied {lname} (non C-contiguous) outputs do not hold the decoded values afterwards, ret={r!r}; '
+                       f'pos[0]={np.asarray(po)[0].tolist()} expected {base_pos[0].tolist()}')
+            cx.nt.append(f'rvmisc:prealloc:{lname}:{dt}')
+        if not (np.isnan(tall_p[1::2]).all() and np.isnan(tall_v[1::2]).all()):
+            cx.bad(f'rvint:prealloc:guard:{dt}', 'rows between the supplied strided output rows were written')
         other = 'f8' if dt == 'f4' else 'f4'
         po, vo = poisoned((n, 3), DT(other)), poisoned((n, 3), DT(other))
         r = bp.unpack_rvint(w, 2000.0, float_dtype=t, posout=po, velout=vo)
@@ -572,6 +590,15 @@ def run_pidmisc(case, cx, bp):
             cx.calls += 1
             check_pid(cx, Q, float(box), int(ppd), dt, out, f'pidmisc Box={box!r} ({type(box).__name__}) ppd={ppd!r} ({type(ppd).__name__}) {dt}')
             cx.nt.append(f'pidmisc:args:{type(box).__name__}:{type(ppd).__name__}:{dt}')
+    # ppd is a float in the file headers; values within rounding of an integer (e.g. a cube root) mean that integer
+    for dt in DTS:
+        for ppd_true in (6912, 64, 1440, 3):
+            for ppdf in (np.nextafter(float(ppd_true), 0.0), np.nextafter(float(ppd_true), 1e9), (float(ppd_true) ** 3) ** (1 / 3),
+                         float(ppd_true) * (1 - 4e-16), np.float32(ppd_true)):
+                out = bp.unpack_pids(Q, box=2000.0, ppd=ppdf, float_dtype=DT(dt), **allk)
+                cx.calls += 1
+                check_pid(cx, Q, 2000.0, ppd_true, dt, out, f'pidmisc near-integer float ppd={ppdf!r} (means {ppd_true}) {dt}')
+                cx.nt.append(f'pidmisc:floatppd:{ppd_true}:{ppdf!r}:{dt}')
     # default float_dtype
     out = bp.unpack_pids(Q, box=32.0, ppd=64, **allk)
     cx.calls += 1
